@@ -153,6 +153,11 @@ pub fn run(tape: &mut Tape, props: Props, p: &Params, trace_on: bool) -> Outcome
     if first_flight {
         rxb[1] = *tape.pick(&[65536usize, 100_000, 131_072, 262_144]);
         txb[0] = 262_144;
+        // (not through a tiny MTU: thousands of segments per flight would only make the run slow)
+        if mtu[0] - l2 < 576 {
+            mtu[0] = l2 + 576;
+            cfgs[0].mtu = mtu[0];
+        }
         cc[0] = 0;
         nagle[0] = false;
     }
@@ -581,7 +586,7 @@ fn complete(w: &World, st: &St) -> bool {
 }
 
 fn main_loop(w: &mut World, st: &mut St, tape: &mut Tape) -> Result<(), Violation> {
-    let ev_cap: u64 = if st.p.thorough { 400_000 } else { 40_000 };
+    let ev_cap: u64 = if st.p.thorough { 400_000 } else { 20_000 };
     let total: u64 = st.apps[0].to_send + st.apps[1].to_send;
     let unit = (st.apps[0].rx_cap.min(st.apps[1].rx_cap).min(st.mtu_ip[0] - 60).min(st.mtu_ip[1] - 60)).max(1) as u64;
     let rtt = 2 * w.link.base_us + 500_000;
@@ -629,7 +634,8 @@ fn main_loop(w: &mut World, st: &mut St, tape: &mut Tape) -> Result<(), Violatio
                 if let Some(p) = &pkt {
                     on_deliver(w, st, to, p);
                 }
-                if corrupted == 1 && w.props.has("C08") {
+                if corrupted == 1 && w.props.has("C08") && w.stats.get("c08.corrupt-alone-checked") < 150 {
+                    // (at most 150 isolated checks per run: each one renders the socket, buffers included)
                     c08c_check(w, st, to, frame, tape)?;
                     service(w, st, to, tape)?;
                 } else {
